@@ -30,7 +30,7 @@ type svEvPre struct {
 // freeze record; an allegation request against party B may be open with votes
 // recorded from some parties. The validator release time is 1 day.
 func svPreEvidence(pre *svEvPre, kind, actor int) func(e *svEnv) {
-	full := func(i int) bool { return i == actor || sv.Tier() > 0 }
+	full := func(i int) bool { return i == actor || (sv.Tier() > 0 && !svLean) }
 	return func(e *svEnv) {
 		ctx := &e.app.Context
 		vs := ctx.validators.WithState(ctx.deliver)
@@ -51,7 +51,11 @@ func svPreEvidence(pre *svEvPre, kind, actor int) func(e *svEnv) {
 				act = true
 				if full(i) {
 					act = sv.Choice("ev.active"+svPartyName(i), 2) == 0
-					fr = sv.Choice("ev.frozen"+svPartyName(i), 4)
+					if svLean {
+						fr = sv.Choice("ev.frozen"+svPartyName(i), 2)
+					} else {
+						fr = sv.Choice("ev.frozen"+svPartyName(i), 4)
+					}
 				} else {
 					fr = sv.Choice("ev.frozen"+svPartyName(i), 2)
 				}
@@ -80,7 +84,11 @@ func svPreEvidence(pre *svEvPre, kind, actor int) func(e *svEnv) {
 		}
 		pre.headerTime = svFrozenAt.Add(time.Second)
 		if kind == 2 {
-			pre.headerTime = svFrozenAt.Add([]time.Duration{time.Second, 24 * time.Hour, 24*time.Hour + time.Second, 48 * time.Hour}[sv.Choice("ev.sinceFreeze", 4)])
+			k := 4
+			if svLean {
+				k = 1
+			}
+			pre.headerTime = svFrozenAt.Add([]time.Duration{48 * time.Hour, time.Second, 24 * time.Hour, 24*time.Hour + time.Second}[sv.Choice("ev.sinceFreeze", k)])
 		}
 	}
 }
